@@ -9,7 +9,8 @@ EXEC = "ra"
 IMPL_SHARDS = 8
 PER_SHARD = 16
 RULE = ("pipelines of 2..8 requests with every combination of body kinds (none, Content-Length 1 / 1023 / 1024 pre-buffered, 1025 / "
-        "5000 streamed, chunked, Expect: 100-continue with a small body); round 1: how many requests can be obtained while NONE "
+        "5000 streamed, chunked, Expect: 100-continue with a small body, an explicit Content-Length: 0, HTTP/1.0 with keep-alive "
+        "in any letter case, a request that ends the connection); round 1: how many requests can be obtained while NONE "
         "is answered; then the application reads the holder's body to its end / reads part of it / responds / drops / takes the "
         "raw writer; round 2: which successors become obtainable; the oracle (from the property text) demands all requests up to "
         "and including the first one with a streamed body in round 1, the rest (up to the next streamed one) in round 2 unless the "
@@ -17,7 +18,8 @@ RULE = ("pipelines of 2..8 requests with every combination of body kinds (none, 
 ASSUMPTIONS = ["the harness waits 3 s for the number of requests the model expects and probes 100 ms for one more: slowness can only "
                "hide a difference"]
 
-KINDS = ["none", "cl1", "cl1023", "cl1024", "cl1025", "cl5000", "chunked", "expect5", "none", "cl1024", "cl5000close"]
+KINDS = ["none", "cl1", "cl1023", "cl1024", "cl1025", "cl5000", "chunked", "expect5", "none", "cl1024", "cl5000close",
+         "cl0", "cl0", "v10ka", "v10ka", "cl7close"]
 
 
 def mk(rng, kind, tag):
@@ -27,6 +29,19 @@ def mk(rng, kind, tag):
         # a streamed request that also ends the connection: nothing behind it is ever parsed
         r = AReq(method="POST", target="/" + tag, version="1.1", headers=[("Host", "h")], framing="cl", body=body_bytes(tag, 5000), conn="close")
         return r, "last"
+    if kind == "cl7close":
+        # a pre-buffered request that ends the connection: it is obtainable at once, nothing behind it is ever parsed
+        r = AReq(method="POST", target="/" + tag, version="1.1", headers=[("Host", "h")], framing="cl", body=body_bytes(tag, 7), conn="close")
+        return r, "end"
+    if kind == "cl0":
+        # an explicit Content-Length: 0 (with any method): there is no body to wait for
+        return AReq(method=rng.choice(["POST", "GET", "PUT"]), target="/" + tag, version="1.1", headers=[("Host", "h")], framing="cl", body=b""), False
+    if kind == "v10ka":
+        # HTTP/1.0 with keep-alive in any letter case and a small (pre-buffered) or empty body: the connection goes on
+        n = rng.choice([0, 1, 100, 1024])
+        r = AReq(method="POST", target="/" + tag, version="1.0", headers=[("Host", "h")], framing="cl", body=body_bytes(tag, n),
+                 conn=rng.choice(["keep-alive", "Keep-Alive", "KEEP-ALIVE", "Keep-Alive, x"]))
+        return r, False
     if kind.startswith("cl"):
         n = int(kind[2:])
         return AReq(method="POST", target="/" + tag, version="1.1", headers=[("Host", "h")], framing="cl", body=body_bytes(tag, n)), n > 1024
@@ -50,6 +65,8 @@ def build(rng, i, kinds, act):
     first = next((k for k, s in enumerate(streamed) if s), None)
     if first is None:
         w1, w2 = targets, []
+    elif streamed[first] == "end":
+        w1, w2 = targets[:first + 1], []
     else:
         w1 = targets[:first + 1]
         rest_t, rest_s = targets[first + 1:], streamed[first + 1:]
@@ -68,7 +85,7 @@ def gen(tier, rng):
         k = 2 + rng.below(7)
         kinds = [rng.choice(KINDS) for _ in range(k)]
         if i % 5 == 0:
-            kinds = [rng.choice(["none", "cl1", "cl1023", "cl1024"]) for _ in range(k)]      # everything obtainable at once
+            kinds = [rng.choice(["none", "cl1", "cl1023", "cl1024", "cl0", "v10ka"]) for _ in range(k)]      # everything obtainable at once
         act = rng.choice(["all", "awayR", "awayD", "awayW", "part3", "part1"])
         yield build(rng, i, kinds, act)
 
